@@ -103,6 +103,15 @@ class ETCRecorder(SObj):
         super().__init__(source.get_class(EM, "EmulsionTimeCourse"), {})
         self.calls = []
         self.file_calls = []
+        # a time course is falsy when it holds no frames (it defines __len__): the number of recorded frames is arbitrary, zero included
+        self.n_frames = run.input_int("n_recorded_frames")
+        run.assume(self.n_frames >= 0)
+
+    def sym_truth(self, E):
+        return self.n_frames > 0
+
+    def sym_len(self, run):
+        return self.n_frames
 
 
 def _etc_attr(engine, run, obj, attr):
@@ -253,7 +262,8 @@ class TrackerFinalize(Contract):
         fc = me.fields["data"].file_calls
         if fn is None:
             return [("without a filename nothing is written", fc == [])]
-        return [("the recorded time course itself is written to the given file", len(fc) == 1 and fc[0][0] == [fn] and not fc[0][1])]
+        return [("the recorded time course itself is written to the given file - also when no frame was recorded (the file must read back equal to the "
+                 "recorded data, not keep an earlier run's content)", len(fc) == 1 and fc[0][0] == [fn] and not fc[0][1])]
 
 
 @register
